@@ -289,6 +289,74 @@ class ObsInterp(ObjInterp):
             return ('N', x) if x else None
         return None
 
+    INT_BITS = {'bool': 1, 'char': 8, 'signed char': 8, 'unsigned char': 8, 'short': 16, 'unsigned short': 16, 'int': 32,
+                'unsigned int': 32, 'unsigned': 32, 'long': 64, 'unsigned long': 64, 'long long': 64, 'unsigned long long': 64,
+                'size_t': 64, 'std::size_t': 64, 'ptrdiff_t': 64, 'std::ptrdiff_t': 64, '__int128': 128, 'unsigned __int128': 128}
+
+    def int_type(self, ct):
+        t = (ct or '').replace('const ', '').replace('volatile ', '').strip()
+        if t in self.INT_BITS:
+            return self.INT_BITS[t], not (t.startswith('unsigned') or t in ('size_t', 'std::size_t', 'bool'))
+        return None
+
+    def dist_of(self, e, st, fr, vt=None):
+        """('dist', a, b, bits, signed): the expression is the difference stamp(a) - stamp(b) of two tracked stamps, seen through
+        integer conversions; bits = the narrowest integer type it passed through, signed = signedness of its final type"""
+        tu = self.tu
+        top = self.int_type(vt) if vt else None
+        if top is None:
+            top = self.int_type(tu.sd(e).get('ct'))
+        if top is None:
+            return None
+        bits, signed = top
+        n = e
+        for _ in range(16):
+            if n is None:
+                return None
+            k = n.get('kind')
+            if k in ('ImplicitCastExpr', 'CStyleCastExpr', 'CXXStaticCastExpr', 'CXXFunctionalCastExpr', 'ParenExpr', 'ExprWithCleanups'):
+                it = self.int_type(tu.sd(n).get('ct'))
+                if it is None and k != 'ParenExpr' and k != 'ExprWithCleanups':
+                    return None
+                if it is not None:
+                    bits = min(bits, it[0])
+                n = tu.kids(n)[-1] if tu.kids(n) else None
+                continue
+            if k == 'DeclRefExpr':
+                dd = thaw(st).get('dist:' + str(n.get('referencedDecl', {}).get('id')))
+                if dd:
+                    return ('dist', dd[1], dd[2], min(bits, dd[3]), signed)
+                return None
+            if k == 'BinaryOperator' and n.get('opcode') == '-':
+                it = self.int_type(tu.sd(n).get('ct'))
+                if it is None:
+                    return None
+                a, b = (self.stamp_of(x, st, fr) for x in tu.kids(n))
+                if a and b:
+                    return ('dist', a, b, min(bits, it[0]), signed)
+            return None
+        return None
+
+    def eval_dist(self, op, dd, c, n, st, fr):
+        """truth of  (stamp(a) - stamp(b)) op c  for a small constant c, from the scenario (which stamp is older)"""
+        d = thaw(st)
+        _, a, b, bits, signed = dd
+        sign = +1
+        if a[0] == 'O' and b[0] == 'N':
+            a, b, sign = b, a, -1
+        if a[0] != 'N' or b[0] != 'O' or d.get(b[1]) != a[1] or a[1] not in OBJS or abs(c) > 1:
+            return None
+        if bits < 64:
+            self.report('narrowed-distance', 'the two 64-bit stamps are compared through their difference narrowed to a %d-bit integer: once %s '
+                        'stamps have been drawn between the two compared values the narrowed difference wraps and the comparison gives the '
+                        'opposite answer (a pending notification is not reported / an old one is reported again); compare the stamps '
+                        'themselves, or keep the distance at 64 bits' % (bits, '2^%d' % (bits - 1)), n, fr, st)
+        older = bool(d.get('N')) and not b[2]
+        dist = (5 if older else -5) * sign              # notification stamp minus observed stamp, representative value
+        if not signed:
+            dist %= 2 ** 64
+        return {'<': dist < c, '<=': dist <= c, '>': dist > c, '>=': dist >= c, '==': dist == c, '!=': dist != c}[op]
+
     def eval_bool(self, e, st, fr, depth=0):
         tu = self.tu
         e = tu.strip(e, casts=True)
@@ -319,6 +387,14 @@ class ObsInterp(ObjInterp):
             return self.eval_bool(ks[1] if c else ks[2], st, fr, depth + 1)
         if k == 'BinaryOperator' and e.get('opcode') in ('==', '!=', '<', '>', '<=', '>='):
             ks = tu.kids(e)
+            for i, j, flip in ((0, 1, False), (1, 0, True)):
+                dd = self.dist_of(ks[i], st, fr)
+                cv = tu.sd(tu.strip(ks[j])).get('cv') or tu.sd(ks[j]).get('cv')
+                if dd and cv is not None:
+                    op = e['opcode']
+                    if flip:
+                        op = {'<': '>', '>': '<', '<=': '>=', '>=': '<=', '==': '==', '!=': '!='}[op]
+                    return self.eval_dist(op, dd, int(cv), e, st, fr)
             sa, sb = self.stamp_of(ks[0], st, fr), self.stamp_of(ks[1], st, fr)
             if sa and sb:
                 op = e['opcode']
@@ -422,6 +498,16 @@ class ObsInterp(ObjInterp):
             bt = base_type(p['ct'])
             if bt in (OBSR, OBSV):
                 o = self.obj_of(a, fr)
+                if bt == OBSV and o not in OBJS:
+                    # an Observable reference bound to a dereferenced pointer (Observer(*other.observee))
+                    x = self.observable_of(a, st, fr)
+                    if x == 'null':
+                        if not quiet:
+                            self.report('null-deref', 'a reference to the observable is bound to `%s`, a dereferenced observee pointer that is '
+                                        'null on this path (the observable was destroyed): %s is entered with a null reference'
+                                        % (tu.show(a), callee['q'].replace(NS, '')), n, fr, st)
+                        return None
+                    o = x if x in OBJS else None
                 if o is None:
                     if not quiet:
                         self.und('argument of %s not understood at %s' % (callee['q'], tu.loc(n)))
@@ -533,6 +619,8 @@ class ObsInterp(ObjInterp):
                     d['v:' + str(v['id'])] = self.pval(init, st, fr)
                 elif '&' in vt and self.list_owner(init, st, fr) is not None:
                     d['l:' + str(v['id'])] = self.list_owner(init, st, fr)       # reference to the observer list of that observable
+                elif '&' not in vt and self.int_type(vt) and self.dist_of(init, st, fr, vt):
+                    d['dist:' + str(v['id'])] = self.dist_of(init, st, fr, vt)     # difference of two stamps kept in an integer local
                 elif self.stamp_of(init, st, fr) is not None and base_type(vt) != TS and '&' not in vt:
                     d['s:' + str(v['id'])] = self.stamp_of(init, st, fr)      # integer snapshot of a stamp
                 else:
@@ -2360,6 +2448,25 @@ def check_coverage(ctx, tu, F, analysed, lib_tus):
     return n
 
 
+class TagCtx:
+    """forwards to the real context, tagging every instance with the build configuration being analysed"""
+
+    def __init__(self, ctx, tag):
+        self._ctx, self._tag = ctx, tag
+
+    def __getattr__(self, name):
+        return getattr(self._ctx, name)
+
+    def ok(self, rule, instance, *a, **k):
+        return self._ctx.ok(rule, instance + self._tag, *a, **k)
+
+    def violation(self, rule, instance, *a, **k):
+        return self._ctx.violation(rule, instance + self._tag, *a, **k)
+
+    def undecided(self, rule, instance, *a, **k):
+        return self._ctx.undecided(rule, instance + self._tag, *a, **k)
+
+
 def run(ctx):
     ctx.assume('histories over observers/observables are sequential (the observer list is not synchronised); only TimeStamp is '
                'claimed for concurrent use')
@@ -2400,6 +2507,13 @@ def run(ctx):
     names = set()
     n3 = check_timestamp(ctx, tu_src, tu, lib_tus, names)
     ctx.floor('R-C19-3', n3, 10, '2 types + nextValue + 7 members + who-writes')
+    # the stamp clauses must hold in every tasking configuration the library is built in: preprocessor-conditional code in
+    # TimeStamp.cpp (e.g. a cheaper path when no RKCOMMON_TASKING_* macro is defined) is analysed per configuration
+    for cfg in (['DEBUG'] if ctx.tier != 'thorough' else ['DEBUG', 'OMP', 'INTERNAL']):
+        tcfg = ctx.front.parse(SRC_T, cfg)
+        tdrv = ctx.front.parse('drivers/c19_observer.cpp', cfg)
+        nc = check_timestamp(TagCtx(ctx, ' {tasking configuration %s}' % cfg), tcfg, tdrv, [], set())
+        ctx.floor('R-C19-3', nc, 10, 'same instances in configuration %s' % cfg)
     if ctx.tier == 'thorough':
         tu2 = ctx.front.parse('drivers/c19_observer.cpp', 'DEBUG', std='gnu++17')
         F2 = Fields(tu2)
